@@ -111,6 +111,9 @@ func AbstractBody(b []byte) Body {
 	if b == nil {
 		return NoBody()
 	}
+	if len(b) == 0 {
+		return Body{K: "raw", O: dashLeaves(), R: []string{}, N: 0} // a body of length zero is a body
+	}
 	s := string(b)
 	if len(s) > 0 && s[0] == '{' {
 		var m map[string]any
@@ -188,6 +191,8 @@ func ConcreteBody(tok string) []byte {
 		return []byte(`{"n":{"x":"s2"},"v":"J3"}`)
 	case "J4":
 		return []byte(`{"n":null,"v":"J4"}`)
+	case "R0":
+		return []byte{} // present, of length zero
 	case "R1":
 		return []byte("R1;")
 	case "R2":
@@ -241,7 +246,12 @@ func newCrcTable() *crcTable {
 	t.note(nil)
 	return t
 }
-func (t *crcTable) note(b []byte) { t.m[crc32cHex(b)] = AbstractBody(b) }
+func (t *crcTable) note(b []byte) {
+	if len(b) == 0 && b != nil {
+		return // same checksum as "no body", which is what the table says for it
+	}
+	t.m[crc32cHex(b)] = AbstractBody(b)
+}
 
 // AbstractXattr decodes one stored xattr value.
 func (t *crcTable) AbstractXattr(raw []byte) XVal {
